@@ -194,7 +194,7 @@ def c11_event(run, d):
     nonutf8 = sum(1 for t in scn["target"].get("threads", []) if not _utf8(t.get("name_hex", "")))
     return {"ev": "c11", "origin": run["id"], "fp": fp, "nameFail": len(faults.get("name_fail", [])) + nonutf8, "threads": nthreads, "exited": exited, "rsp0": rsp0,
             "prinNotRef": bool(scn.get("expect", {}).get("prinNotRef", False)), "dsoFail": bool(scn.get("expect", {}).get("dsoFail", False)),
-            "auxvComplete": bool(complete), "outcome": d.get("outcome"), "error": d.get("error", ""), "wellFormed": wf, "paths": paths, "present": present}
+            "unreadable": list(scn.get("unreadable", [])), "auxvComplete": bool(complete), "outcome": d.get("outcome"), "error": d.get("error", ""), "wellFormed": wf, "paths": paths, "present": present}
 
 
 def c19_event(run, d, cur_writer):
